@@ -373,7 +373,8 @@ def gen_spec(r: apigen.Rng):
         if fi < nfiles - 1 and r.maybe(0.3):
             # a target file named like a module the service code imports from elsewhere (google.api_core.operation, the service's
             # own pagers module, ...): the two modules must be told apart by an alias wherever they meet
-            fname = r.pick(["operation", "pagers", "operation_async", "extended_operation", "retries", "client_options", "logging"])
+            pool = ["operation", "pagers", "operation_async", "extended_operation", "retries", "client_options", "logging"]
+            fname = r.pick([n if n not in {x["name"] for x in spec["files"]} else n + "_two" for n in pool])     # (file names are unique)
         f = {"name": fname, "pkg": pkg + ("." + spec["sub"] if in_sub else ""), "messages": [], "enums": [], "services": []}
         if r.maybe(0.6):
             f["enums"].append({"name": f"Color{fi}", "values": [f"COLOR{fi}_UNSPECIFIED", f"RED{fi}", f"BLUE{fi}"]})
@@ -476,7 +477,7 @@ def stress_specs():
 
 # target file names that, once a service references their messages, shadow a name the service templates bind at module level
 # (observed on the unchanged tree with transport=grpc+rest; `retries` and `logging` need the REST transport, `re` does not)
-SHADOWING_FILE_NAMES = {"re", "logging", "dataclasses", "gapic_v1", "grpc", "core_exceptions", "ga_credentials", "package_version", "std_logging", "retries"}
+# -> SHADOWED_ATTRS (file name -> the attributes the templates read from the shadowed module)
 
 
 def finding_specs():
@@ -486,7 +487,7 @@ def finding_specs():
                                          {"name": "labels", "kind": "repeated", "scalar": "string", "key": "string", "target": None, "required": False}],
                 "nested": False, "resource": False, "oneof": False}
     out = []
-    for variant in ("enum-keyword", "typing-name", "async-rest-only", "file-named-retries"):
+    for variant in ("enum-keyword", "typing-name", "async-rest-only", "file-named-retries", "pager-item-typing-name"):
         pkg = "acme.lib.v1"
         f = {"name": "library", "pkg": pkg, "messages": [msg("Alpha")], "enums": [], "services": []}
         if variant == "enum-keyword":
@@ -497,7 +498,17 @@ def finding_specs():
         if variant == "file-named-retries":
             f["name"] = "retries"
         tr = "rest" if variant in ("async-rest-only", "file-named-retries") else "grpc"
-        out.append({"pkg": pkg, "files": [f], "dep_pkg": False, "sub": None, "service_in_sub": False, "service_yaml": variant == "async-rest-only",
+        fs = [f]
+        if variant == "typing-name":
+            # the message named like a typing import must be the LAST class of its types module (request messages are appended to the
+            # service's file, so it sits in a file of its own kind next to one ordinary message)
+            f["messages"].pop()
+            fs = [{"name": "common", "pkg": pkg, "messages": [msg("Alpha0"), msg("MutableSequence")], "enums": [], "services": []}, f]
+        if variant == "pager-item-typing-name":
+            # MutableSequence is the FIRST class of its module (so the descriptor is built in time) and the item type of a paged method
+            fs = [{"name": "common", "pkg": pkg, "messages": [msg("MutableSequence"), msg("Alpha0")], "enums": [], "services": []}, f]
+            f["services"][0]["methods"].append({"name": "ListThings", "kind": "paged", "io": (pkg, "MutableSequence"), "http": True, "sig": False})
+        out.append({"pkg": pkg, "files": fs, "dep_pkg": False, "sub": None, "service_in_sub": False, "service_yaml": variant == "async-rest-only",
                     "rest_async": variant == "async-rest-only", "ads": False,
                     "opts": [f"transport={tr}", "autogen-snippets=false"], "transport": [tr]})
     return out
@@ -553,12 +564,12 @@ def only_ref_matrix():
     """(way, kind, where): `way` is the only reference from library.proto to the other file, which lies in the same package, in a proto
     sub-package, in a dependency package (a _pb2 module) or is google/protobuf/timestamp.proto"""
     out = []
-    for where in ("same", "sub", "dep", "wkt"):
+    for where in ("same", "sub", "up", "dep", "wkt"):      # "up": library.proto (and its service) in the sub-package, the other file in the API package
         for way in FIELD_WAYS:
             out.append((way, "message", where))
             if where != "wkt":
                 out.append((way, "enum", where))
-        if where in ("same", "sub"):
+        if where in ("same", "sub", "up"):
             out += [(w, "message", where) for w in METHOD_WAYS]
         elif where == "dep":
             out += [(w, "message", where) for w in ("lro_response", "lro_metadata", "method_output", "method_input")]
@@ -567,8 +578,8 @@ def only_ref_matrix():
 
 def only_ref_spec(way, kind, where, tr="grpc+rest", mirror=False):
     pkg = "acme.lib.v1"
-    return {"pkg": pkg, "only_ref": {"way": way, "kind": kind, "where": where, "mirror": mirror}, "dep_pkg": where == "dep", "sub": "admin" if where == "sub" else None,
-            "service_in_sub": False, "service_yaml": False, "ads": False, "files": [], "opts": [f"transport={tr}", "autogen-snippets=false"], "transport": tr.split("+")}
+    return {"pkg": pkg, "only_ref": {"way": way, "kind": kind, "where": where, "mirror": mirror}, "dep_pkg": where == "dep", "sub": "admin" if where in ("sub", "up") else None,
+            "service_in_sub": where == "up", "service_yaml": False, "ads": False, "files": [], "opts": [f"transport={tr}", "autogen-snippets=false"], "transport": tr.split("+")}
 
 
 def build_only_ref(spec):
@@ -597,7 +608,8 @@ def build_only_ref(spec):
         msg_t, enum_t = tag, genre
     else:
         msg_t, enum_t, treq = ".google.protobuf.Timestamp", None, None
-    lib = apigen.File("/".join(pkg.split(".")) + "/library.proto", pkg)
+    lpkg = pkg + (".admin" if where == "up" else "")
+    lib = apigen.File("/".join(lpkg.split(".")) + "/library.proto", lpkg)
     if other is not None:
         lib.dep(other.name)
     files.append(lib); targets.append(lib)
@@ -676,7 +688,11 @@ def build_cycle(spec):
 
 
 def package_graph_cyclic(files, targets):
-    """do the proto packages of the target files refer to each other's types in a cycle?  (edges: field types incl. nested messages,
+    return bool(packages_on_cycle(files, targets))
+
+
+def packages_on_cycle(files, targets):
+    """the proto packages of the target files that refer to each other's types in a cycle  (edges: field types incl. nested messages,
     method input/output, LRO response/metadata; computed from the descriptors)"""
     from google.longrunning import operations_pb2 as _ops
     tnames = {t.pb.name if hasattr(t, "pb") else t.name for t in targets}
@@ -714,7 +730,89 @@ def package_graph_cyclic(files, targets):
     for _ in nodes:
         for n in nodes:
             reach[n] |= {z for y in list(reach[n]) for z in reach.get(y, ())}
-    return any(n in reach[n] for n in nodes)
+    return {n for n in nodes if n in reach[n]}
+
+
+# ---- triggers of the open findings, decided from the INPUT (descriptors, options, emitted layout), never from the symptom ----------
+def _target_pbs(files, targets):
+    tnames = {t.pb.name if hasattr(t, "pb") else t.name for t in targets}
+    return [f for f in (x.pb if hasattr(x, "pb") else x for x in files) if f.name in tnames]
+
+
+def _file_module(pb):
+    return pb.name.split("/")[-1][:-len(".proto")]
+
+
+def keyword_enum_values(files, targets):
+    """(enum name, value name) of every enum value of a target file that is a Python keyword (top-level and nested enums)"""
+    import keyword
+    out = set()
+
+    def enums(es):
+        for e in es:
+            out.update((e.name, v.name) for v in e.value if keyword.iskeyword(v.name))
+
+    def msgs(ms):
+        for m in ms:
+            enums(m.enum_type); msgs(m.nested_type)
+    for f in _target_pbs(files, targets):
+        enums(f.enum_type); msgs(f.message_type)
+    return out
+
+
+TYPING_NAMES = ("MutableSequence", "MutableMapping")
+
+
+def typing_named_last(files, targets, res):
+    """{module name of a target file: full name of its message} where the file declares a top-level message named like one of the two
+    names every types module imports from `typing`, next to at least one other top-level message/enum, AND that message is the LAST
+    class of the emitted types module (proto-plus then takes the module's manifest for complete one class too early)"""
+    out = {}
+    content = {f.name: f.content for f in res.file}
+    for f in _target_pbs(files, targets):
+        named = [m.name for m in f.message_type if m.name in TYPING_NAMES]
+        if not named or len(f.message_type) + len(f.enum_type) < 2:
+            continue
+        mod = _file_module(f)
+        for n, c in content.items():
+            if n.endswith(f"/types/{mod}.py"):
+                try:
+                    classes = [st.name for st in ast.parse(c).body if isinstance(st, ast.ClassDef)]
+                except SyntaxError:
+                    continue
+                if len(classes) >= 2 and classes[-1] in named:
+                    out[mod] = f"{f.package}.{classes[-1]}"
+    return out
+
+
+def paged_items_named_mutable_sequence(files, targets):
+    """module names of the target files declaring a message named `MutableSequence` that is the ITEM type of a paged method (response with
+    `next_page_token` whose first repeated field has that type): pagers.py.j2 rewrites every `MutableSequence` of the item annotation"""
+    tp = _target_pbs(files, targets)
+    msgs = {f"{f.package}.{m.name}": (m, f) for f in tp for m in f.message_type}
+    out = set()
+    for f in tp:
+        for sv in f.service:
+            for me in sv.method:
+                o = msgs.get(me.output_type.lstrip("."))
+                if not o or not any(fd.name == "next_page_token" for fd in o[0].field):
+                    continue
+                rep = [fd for fd in o[0].field if fd.label == 3]
+                if rep and rep[0].type_name.endswith(".MutableSequence") and rep[0].type_name.lstrip(".") in msgs:
+                    out.add(_file_module(msgs[rep[0].type_name.lstrip(".")][1]))
+    return out
+
+
+def services_in_subpackages(files, targets, api_pkg):
+    """names of the services declared in a target file whose proto package lies strictly below the API package"""
+    return {sv.name for f in _target_pbs(files, targets) if f.package != api_pkg and f.package.startswith(api_pkg + ".") for sv in f.service}
+
+
+# file name -> the attributes the service templates read from the module (or alias) of that name at import time
+SHADOWED_ATTRS = {"retries": {"Retry", "AsyncRetry"}, "logging": {"getLogger"}, "std_logging": {"getLogger"}, "re": {"compile"}, "dataclasses": {"dataclass"},
+                  "gapic_v1": {"client_info", "method"}, "grpc": {"UnaryUnaryClientInterceptor", "Channel", "ChannelCredentials"},
+                  "core_exceptions": {"GoogleAPICallError"}, "ga_credentials": {"Credentials"}, "package_version": {"__version__"}}
+
 
 
 def build(spec):
@@ -839,14 +937,15 @@ def run_case(ctx, spec, label):
         req = apigen.request(files, ",".join(opts), targets=targets)
         ctx.count("package_graph", "cyclic" if package_graph_cyclic(files, targets) else "acyclic")
     except Exception as e:          # our own descriptor builder rejected the spec: not a case
-        ctx.count("builder", "rejected:" + type(e).__name__)
+        ctx.count("builder", f"rejected:{type(e).__name__}:{str(e)[:80]}")      # (the stand-in for protoc refused OUR input; listed in the evidence)
         return
     try:
         res, err = genrun.try_generate(req)
         if err:
             key = "generation:" + err[0]
-            if (spec.get("service_in_sub") and "autogen-snippets=false" not in spec["opts"] and err[0].startswith("KeyError@samplegen/samplegen.py:generate_sample_specs")
-                    and any(("." + sv["name"]) in err[1] for f in spec["files"] if f["pkg"] != spec["pkg"] for sv in f["services"])):
+            # trigger: a service declared in a proto sub-package, snippets on; symptom: generate_sample_specs misses exactly `<api package>.<that service>`
+            if ("autogen-snippets=false" not in opts and err[0] == "KeyError@samplegen/samplegen.py:generate_sample_specs"
+                    and err[1].strip() in {repr(f"{spec['pkg']}.{n}") for n in services_in_subpackages(files, targets, spec["pkg"])}):
                 key = "generation:KeyError:service-in-subpackage-with-snippets"
             ctx.fail(key, f"generator raised {err[0]}: {err[1]}", payload)
             return
@@ -878,11 +977,12 @@ def run_case(ctx, spec, label):
                 if where == "samples" and no_ns and all(_re.fullmatch(r"from  import \w+", line_of[b[0]]) for b in grp):
                     key = "syntax-error:samples:package-without-namespace"
                 if where in ("library", "tests", "samples") and not key.endswith("package-without-namespace"):
-                    kws = {v for f in spec["files"] for e in f["enums"] for v in e["values"] if _kw.iskeyword(v)}
-                    def about_kw_value(name, line):      # the declaration `None = 1` in a types module, or a use `<Enum>.None` elsewhere
+                    pairs = keyword_enum_values(files, targets)
+                    kws = {v for _, v in pairs}
+                    def about_kw_value(name, line, msg):      # the declaration `None = 1` in a types module, or a use `<Enum>.None` elsewhere
                         m = _re.fullmatch(r"(\w+) = -?\d+", line)
-                        return bool(m and m.group(1) in kws and "/types/" in name) or any(_re.search(r"\.%s\b" % k, line) for k in kws)
-                    if kws and all(about_kw_value(b[0], line_of[b[0]]) for b in grp):
+                        return bool(m and m.group(1) in kws and "/types/" in name) or any(_re.search(r"\b%s\.%s\b" % (e, k), line) for e, k in pairs)
+                    if kws and all(about_kw_value(b[0], line_of[b[0]], b[2]) for b in grp):
                         key = "syntax-error:enum-value-is-python-keyword"
                 ctx.fail(key, f"{len(grp)} emitted file(s) do not parse, e.g. {grp[0]}", payload)
             if groups["library"]:      # (noxfile.py, samples and tests are not modules of the package: the import clauses are still judged)
@@ -917,22 +1017,36 @@ def run_case(ctx, spec, label):
         imp = out[0]
         if "child_error" in imp or imp.get("errors"):
             key = "import-error"
-            mnames = {m["name"] for f in spec["files"] for m in f["messages"]}
             etxt = str(imp.get("errors") or imp)
-            if spec.get("rest_async") and "grpc" not in spec["transport"] and "transports.grpc_asyncio" in etxt and "ModuleNotFoundError" in etxt:
-                key = "import-error:async-rest-without-grpc"
-            # (three symptoms of the one cause: the descriptor file is built before the class exists — built twice, built without it, or a field refers to it)
             import re as _re4
-            if mnames & {"MutableSequence", "MutableMapping"} and ("duplicate file name" in etxt or ("AttributeError" in etxt and ".types." in etxt and "has no attribute" in etxt)
-                                                                    or _re4.search(r"couldn't resolve name '[\w.]+\.(MutableSequence|MutableMapping)'", etxt)):
+            tfiles = {_file_module(f) for f in _target_pbs(files, targets)}
+            # (1) trigger: async-REST experiment on and gRPC not requested; symptom: the one module async_client.py imports unconditionally is missing
+            if (ex0.rest_async_io_enabled and "grpc" not in o.transport and "ModuleNotFoundError" in etxt
+                    and _re4.search(r"No module named '[\w.]+\.transports\.grpc_asyncio'", etxt)):
+                key = "import-error:async-rest-without-grpc"
+            # (2) trigger: a message named like a typing import is the LAST class of its types module (next to another class); symptom: that
+            # file's descriptor is built twice, or another file cannot resolve that message, or an AttributeError naming it
+            tn = typing_named_last(files, targets, res)
+            mdup = _re4.search(r"duplicate file name [\w/]+/types/(\w+)\.proto", etxt)
+            mres = _re4.search(r"couldn't resolve name '([\w.]+)'", etxt)
+            if tn and ((mdup and mdup.group(1) in tn) or (mres and mres.group(1) in tn.values())
+                       or ("AttributeError" in etxt and any(f"'{n}'" in etxt for n in TYPING_NAMES))):
                 key = "import-error:message-named-like-typing-import"
-            # a types module named like a module (or import alias) the service templates bind at module level shadows it (findings/C01.json)
-            import re as _re2
-            msh = _re2.search(r"module '[\w.]+\.types\.(\w+)' has no attribute", etxt)
-            if "AttributeError" in etxt and msh and msh.group(1) in SHADOWING_FILE_NAMES and msh.group(1) in {f["name"] for f in spec["files"]}:
+            # (2b) trigger: a message named MutableSequence is the item type of a paged method; symptom: pagers.py reads `<module>.Iterator` /
+            # `<module>.AsyncIterator` on the types module that declares it
+            mit = _re4.search(r"AttributeError', \"module '[\w.]+\.types\.(\w+)' has no attribute '(Iterator|AsyncIterator)'", etxt)
+            if mit and mit.group(1) in paged_items_named_mutable_sequence(files, targets):
+                key = "import-error:pager-item-named-MutableSequence"
+            # (3) trigger: a TARGET file named like a module / import alias the service templates bind; symptom: the template's own attribute
+            # is looked up on the types module of that name
+            msh = _re4.search(r"AttributeError', \"module '[\w.]+\.types\.(\w+)' has no attribute '(\w+)'", etxt)
+            if msh and msh.group(1) in tfiles and msh.group(2) in SHADOWED_ATTRS.get(msh.group(1), ()):
                 key = "import-error:types-module-shadows-template-import"
-            # proto packages that use each other's types in both directions: the emitted packages import each other half initialised
-            if "partially initialized module" in etxt and package_graph_cyclic(files, targets):
+            # (4) trigger: proto packages that use each other's types in a cycle; symptom: the half-initialised module is a types module of a
+            # target file of one of THOSE packages
+            mpi = _re4.search(r"partially initialized module '[\w.]+\.types\.(\w+)'", etxt)
+            cyc = packages_on_cycle(files, targets)
+            if mpi and cyc and any(_file_module(f) == mpi.group(1) and f.package in cyc for f in _target_pbs(files, targets)):
                 key = "import-error:package-level-import-cycle"
             ctx.fail(key, f"package {pkg} does not import: {str(imp.get('errors') or imp)[:400]}", payload)
             return
